@@ -728,3 +728,37 @@ impl WaitGroup {
         self.0.wait()
     }
 }
+
+// ------------------------------------------------------------------------------------------
+// AtomicBool with scheduling points (the `is_closed` flags): a check-then-act on a plain
+// atomic is an interleaving the simulator must be able to split.
+// ------------------------------------------------------------------------------------------
+
+#[derive(Debug, Default)]
+pub struct AtomicBool(std::sync::atomic::AtomicBool);
+
+impl AtomicBool {
+    pub const fn new(v: bool) -> Self {
+        AtomicBool(std::sync::atomic::AtomicBool::new(v))
+    }
+    #[track_caller]
+    pub fn load(&self, o: Ordering) -> bool {
+        rt::sched_point_throttled(rt::site_hash(std::panic::Location::caller()));
+        self.0.load(o)
+    }
+    #[track_caller]
+    pub fn store(&self, v: bool, o: Ordering) {
+        rt::sched_point_throttled(rt::site_hash(std::panic::Location::caller()));
+        self.0.store(v, o)
+    }
+    #[track_caller]
+    pub fn swap(&self, v: bool, o: Ordering) -> bool {
+        rt::sched_point_throttled(rt::site_hash(std::panic::Location::caller()));
+        self.0.swap(v, o)
+    }
+    #[track_caller]
+    pub fn compare_exchange(&self, cur: bool, new: bool, s: Ordering, f: Ordering) -> Result<bool, bool> {
+        rt::sched_point_throttled(rt::site_hash(std::panic::Location::caller()));
+        self.0.compare_exchange(cur, new, s, f)
+    }
+}
